@@ -322,6 +322,15 @@ func runC07(c *core.Ctx) {
 				sig := unrelated.sign(r, t3SignedMessage(unrelated.RequestKeyEnc, p.NameKeyID, p.Ciphertext))
 				w.mustReject(t3Request(unrelated.RequestKeyEnc, p.NameKeyID, p.Ciphertext, sig), "request-key-replaced-and-resigned", "aad_binding_rejected")
 			}
+			// well-framed, correctly signed requests whose ciphertext is shorter than an HPKE encapsulation
+			{
+				b := w.build(r, c07Opts{origin: origin})
+				for _, l := range []int{1, 2, 16, 31, 32, 33, 47, 48, 49} {
+					ct := clone(b.ct[:l])
+					sig := b.signer.sign(r, t3SignedMessage(b.signer.RequestKeyEnc, w.nk.keyID(), ct))
+					w.mustReject(t3Request(b.signer.RequestKeyEnc, w.nk.keyID(), ct, sig), fmt.Sprintf("short-ciphertext#%d", l), "truncations_rejected")
+				}
+			}
 			// AAD variants: each drops or alters one bound component
 			mods := map[string]func([]byte) []byte{
 				"aad-without-request-key": func(a []byte) []byte { return append(clone(a[:9]), a[9+49:]...) },
